@@ -44,6 +44,26 @@ CLAIMS = {
    "Decides the recipient-stripping walk, which is the shape of the code: every object type's pointer implements Clean; Object.Clean stores a zero-length list into both Bto and BCC; the nine (+3 for Activity) walked properties are handed to CleanRecipients on every path; by abstract interpretation, Clean() of every other type reaches (*Object).Clean on its own value on every executable path, and CleanRecipients on a non-nil pointer (alone or as list member) of each type reaches that type's Clean; the only vocabulary-struct fields written in the Clean closures are Bto/BCC. Near-complete for the property; NOT decided: values embedded by value, aliasing of list backing arrays.",
    "Trusted: go/types, go/ssa, the abstract interpreter, prov.go.",
    "must-call / walk-list extraction on SSA + abstract interpretation of delegation + write-frame scan", "3/C11"),
+ "C13": ("other",
+   "Decides the sibling-agreement clauses over the six container kinds (found by method set): in every Append the store that grows the list lies only on the not-contained side of a Contains test on that same list with the element being appended; Append/Count/Collection/Contains of one type work on one list field, which is also what ToItemCollection hands out; every Contains decides membership only through ItemsEqual / IRI.Equals between a list element and the argument. Necessary conditions of the set semantics for every history; operation histories, Remove's splice arithmetic, order preservation and backing-array aliasing are NOT decided.",
+   "Trusted: go/types method sets, go/ssa, prov.go.",
+   "sibling agreement + dominance of the Contains guard over the append (SSA/CFG)", "3/C13"),
+ "C14": ("other",
+   "Decides the insensitivity clauses structurally over every read of a parsed URL's component in the closure of IRI.Equals: scheme/host/path meet only in strings.EqualFold (path after cleaning) or against constants, never case-sensitively against each other; the scheme comparison and the scheme stripping are guarded by the checkScheme flag with the right polarity; fragment and raw query are never read; the fast path folds case and cuts the fragment; IRIs.Contains decides through IRI.Equals. NOT decided: that the relation is an equivalence (symmetry fails on the pinned tree for repeated query keys: a one-directional multiset inclusion that no structural rule separates from a correct one without false alarms), fast-path/URL-path agreement on all inputs.",
+   "Trusted: go/ssa, net/url field semantics, strings.EqualFold.",
+   "use-site classification of url.URL component reads + flag-guard dominance (SSA)", "3/C14"),
+ "C16": ("other",
+   "Decides the structural clauses of flattening: each of the fifteen flattened properties is reassigned from a flattener applied to that same property of the same value; no other vocabulary-struct property is written in the flattening closures; every flattener that can replace an item by its identifier does so only under both an is-object test and a non-empty-id test. NOT decided: index alignment of the list variant with the de-duplicated copy, idempotence, value equality of the produced IRI.",
+   "Trusted: go/ssa, prov.go.",
+   "field-assignment pairing + write-frame scan + guard dominance (SSA)", "3/C16"),
+ "C17": ("proof",
+   "Proves the comparator has the key form less(a,b) = After(key(a), key(b)) with key = later of published/updated (the two key slices are isomorphic under renaming the parameter and each depends on one parameter only) and, by abstract interpretation, that nil (untyped and typed) ranks before any object and never after; a comparator of this form is a strict weak order whenever After is one on instants, so every clause of the property follows. 8 obligations, all discharged.",
+   "Assumes time.Time.After is a strict weak order on instants. Trusted: go/ssa, the abstract interpreter for the nil cases.",
+   "slice isomorphism / key-form proof on SSA + abstract interpretation of nil cases", "3/C17"),
+ "C18": ("other",
+   "Decides the structural clauses of the merge: by abstract interpretation CopyItemProperties returns an error without reaching any merge function for nil/typed-nil operands, for ids forced different and for type names forced different, and the dispatcher refuses unsupported types; every store to.f in the merge functions is fed from from.f of the same f, is not on the unset side of a test of from.f, and replace-if helpers return the old value only where the new one is unset (struct helpers must not replace wholesale on a cross-comparison); each merged property listed in the statement has such a store; nothing is written through from. NOT decided: the 2^n set/unset combinations on concrete values.",
+   "Trusted: go/ssa, prov.go, the abstract interpreter.",
+   "abstract interpretation of refusal paths + field-assignment pairing and guard polarity (SSA)", "3/C18"),
 }
 
 NOT_YET = "check not yet built in this round (planned, see DESIGN.md section 3); not claimed until it runs clean"
